@@ -413,7 +413,18 @@ AXIOMS = {
 }
 
 
+def d_ax_exp_mono_all(E, fv, st, node, prog):
+    """quantified monotonicity of exp (multi-pattern on pairs of EXP terms)"""
+    USED.add("axiom:ax_exp_mono_all")
+    x = fv.fresh("x", R)
+    y = fv.fresh("y", R)
+    st.assume(z3.ForAll([x, y], (x <= y) == (EXP(x) <= EXP(y)), patterns=[z3.MultiPattern(EXP(x), EXP(y))]))
+    st.assume(z3.ForAll([x], EXP(x) > 0, patterns=[EXP(x)]))
+    return NONE
+
+
 BUILTINS = {
+    "ax_exp_mono_all": d_ax_exp_mono_all,
     "len": b_len,
     "range": b_range,
     "min": _minmax(True),
